@@ -264,7 +264,7 @@ PostN(f, i, o) ==
      [] f = "gmp_sscanf" -> /\ o.ret = i.nfields /\ o.v = i.v
                             /\ \A k \in DOMAIN o.alt : o.alt[k].r = i.nfields /\ o.alt[k].v = i.v       \* gmp_fscanf, gmp_scanf (redirected stdin) and the va_list twins
         \* ---- C19: ranges of the mpn-level generators and whole-sample statistics
-     [] f \in {"mpn_randomb", "mpn_rrandom"} -> ZLimbCount(o.r) = i.n                      \* exactly n limbs, top limb non-zero
+     [] f \in {"mpn_randomb", "mpn_rrandom", "mpn_random", "mpn_random2"} -> ZLimbCount(o.r) = i.n                      \* exactly n limbs, top limb non-zero
      [] f = "mpn_urandomb" -> ZBitLen(o.r) <= i.bits
      [] f = "mpn_urandomm" -> ZLt(o.r, i.m)
      [] f = "rand_stats" ->      \* i.bits-bit draws (a TLA+ sequence of numerals), N = Len
